@@ -73,6 +73,8 @@ RAC_FOR_FUNCTION['lemma_merge_step'] = ['mask_merge']
 for _f in ('CorrectNumberSuffix::lint', 'NumberSuffix::from_chars', 'NumberSuffix::to_chars'):
     RAC_FOR_FUNCTION[_f] = ['number_suffix_rule']
 RAC_FOR_FUNCTION['parse_inline_tag'] = ['comment_frontends']
+RAC_FOR_FUNCTION['LiterateHaskellMasker::create_mask'] = ['lhs_frontend']
+RAC_FOR_FUNCTION['GitCommitParser::parse'] = []
 for _f in ('Unit::parse', 'Go::parse', 'JsDoc::parse', 'JavaDoc::parse', 'parse_line', 'line_is_code_fence', 'without_initiators'):
     RAC_FOR_FUNCTION[_f] = ['comment_frontends']
 RAC_FOR_FUNCTION['index_to_position'] = ['lsp_glue']
@@ -80,6 +82,7 @@ RAC_FOR_FUNCTION['span_to_range'] = ['lsp_glue']
 RAC_FOR_FUNCTION['lex_ip_schemepart'] = ['url_scanner', 'lexers']
 
 UNIT_RAC = {
+    'lhs_masker': ['lhs_frontend'],
     'comments_doc': ['comment_frontends'],
     'comments': ['comment_frontends'],
     'pos_conv': ['lsp_glue'],
